@@ -33,13 +33,19 @@ func verifConcurrencyUniverse() *j5schema.VerifUniverse {
 			{Name: proto.String("D"), Field: []*descriptorpb.FieldDescriptorProto{str("only", 1)}},
 			{Name: proto.String("S"), Field: []*descriptorpb.FieldDescriptorProto{str("v", 1)}},
 		}}
-	return j5schema.VerifNewUniverse(fdp)
+	// a second proto package, so that first use can create two package entries at once
+	other := &descriptorpb.FileDescriptorProto{Name: proto.String("u/v1/u.proto"), Package: proto.String("u.v1"), Syntax: proto.String("proto3"),
+		Dependency: []string{"t/v1/t.proto"},
+		MessageType: []*descriptorpb.DescriptorProto{
+			{Name: proto.String("E"), Field: []*descriptorpb.FieldDescriptorProto{str("x", 1), msgField("shared", 2, ".t.v1.S", false)}},
+		}}
+	return j5schema.VerifNewUniverse(fdp, other)
 }
 
 func HarnessConcurrentSchemaCache() {
 	u := verifConcurrencyUniverse()
-	names := []string{"t.v1.A", "t.v1.B", "t.v1.C", "t.v1.D"}
-	n1, n2 := names[ndChoice("first", 4)], names[ndChoice("second", 4)]
+	names := []string{"t.v1.A", "t.v1.B", "t.v1.C", "t.v1.D", "u.v1.E"}
+	n1, n2 := names[ndChoice("first", 5)], names[ndChoice("second", 5)]
 	m1, m2 := u.Message(n1), u.Message(n2)
 	cache := j5schema.NewSchemaCache()
 	if ndBool("warm") {
